@@ -43,6 +43,7 @@ package client
 
 import (
 	"context"
+	"math"
 	"sync"
 	"time"
 
@@ -216,6 +217,11 @@ func doRequestFollowRedirectsBuffer(ctx context.Context, req *protocol.Request, 
 	bodyBuf := resp.BodyBuffer()
 	oldBody := bodyBuf.B
 	bodyBuf.B = dst
+	// The buffer now stands on the caller's memory (dst): no reset of the response
+	// during the exchange may hand it to the pool, where another response would pick it
+	// up and read its body into the slice this call returns (every attempt begins with
+	// resp.Reset(), which gives up a buffer larger than the response's keep size).
+	resp.SetMaxKeepBodySize(math.MaxInt)
 
 	statusCode, _, err = DoRequestFollowRedirects(ctx, req, resp, url, defaultMaxRedirectsCount, c)
 
@@ -231,6 +237,7 @@ func doRequestFollowRedirectsBuffer(ctx context.Context, req *protocol.Request, 
 	} else {
 		bb.B = nil
 	}
+	resp.SetMaxKeepBodySize(0)
 	protocol.ReleaseResponse(resp)
 
 	return statusCode, body, err
